@@ -11,7 +11,25 @@ the first run (the machinery as it was when the variant arrived).
 import json, os, shutil, subprocess, sys
 from concurrent.futures import ThreadPoolExecutor
 import threading
-GITLOCK = threading.Lock()
+class _GitLock:
+    """git worktree add/remove are serialised across threads and across processes (seedcheck, verify_seed)."""
+    _t = threading.Lock()
+
+    def __enter__(self):
+        import fcntl
+        self._t.acquire()
+        os.makedirs("/tmp/seedv", exist_ok=True)
+        self._f = open("/tmp/seedv/.gitlock", "w")
+        fcntl.flock(self._f, fcntl.LOCK_EX)
+
+    def __exit__(self, *a):
+        import fcntl
+        fcntl.flock(self._f, fcntl.LOCK_UN)
+        self._f.close()
+        self._t.release()
+
+
+GITLOCK = _GitLock()
 
 TC = "/root/go/pkg/mod/golang.org/toolchain@v0.0.1-go1.24.0.linux-amd64/bin"
 ENV = dict(os.environ, PATH=TC + ":" + os.environ["PATH"], GOTOOLCHAIN="local", GOFLAGS="-mod=mod", GOPROXY="off")
@@ -31,7 +49,7 @@ def imp():
     # deliveries: round 1 /tmp/neutral/<Cxx>-out -> n1..n3; round 2 -out2 -> n4..n6; round 3 -out3 -> n7..n9;
     # round 4 /tmp/neutral4/<Cxx>-out -> n10..n12; round 5 /tmp/neutral5/<Cxx>-out -> n13..n15
     for prop in ALL:
-        for base, off in ((f"/tmp/neutral/{prop}-out", 0), (f"/tmp/neutral/{prop}-out2", 3), (f"/tmp/neutral/{prop}-out3", 6), (f"/tmp/neutral4/{prop}-out", 9), (f"/tmp/neutral5/{prop}-out", 12)):
+        for base, off in ((f"/tmp/neutral/{prop}-out", 0), (f"/tmp/neutral/{prop}-out2", 3), (f"/tmp/neutral/{prop}-out3", 6), (f"/tmp/neutral4/{prop}-out", 9), (f"/tmp/neutral5/{prop}-out", 12), (f"/tmp/neutral6/{prop}-out", 15)):
             if not os.path.isdir(base):
                 continue
             for n in sorted(os.listdir(base)):
